@@ -33,7 +33,7 @@ REQUIRED_LABELS = {"quick": ["orphan-higher-than-committed", "damage:stale", "da
 
 DAMAGES = ["deleted", "empty", "whitespace", "random", "invalid_utf8", "digits_missing", "digits_lower", "digits_huge", "legacy_name", "legacy_lower", "missing_file", "stale",
            "orphan", "current_lf", "current_crlf", "current_spaces", "path_sep", "dotdot", "long_garbage", "digits_unicode", "digits_5000", "name_5000", "digits_n", "name_n", "legacy_name_n"]
-ACTIONS = ["load_table", "create_table", "append", "append_then_lose_pointer", "scan", "gc", "open_during_commit"]
+ACTIONS = ["load_table", "create_table", "append", "append_then_lose_pointer", "scan", "gc", "open_during_commit", "second_loss_same_handle"]
 
 
 @st.composite
@@ -339,6 +339,32 @@ def check_case(case):
                 return out
             if got != want_rows + rows_multiset([{"k": -2, "s": "after"}]):
                 vio("acknowledged-commit-lost-after-second-pointer-loss", f"after append + pointer loss the table has {sum(got.values())} rows, expected {sum(want_rows.values()) + 1}")
+                return out
+        if act == "second_loss_same_handle":
+            # the handle that has just recovered stays open; ANOTHER handle commits; the pointer is lost again; the long-lived handle reads
+            # and commits: nothing it learnt during the first recovery may stand in for the table's present state
+            try:
+                datashard.load_table(root).append_records([{"k": -6, "s": "other"}])
+                if case["stale_idx"] % 2 == 0:
+                    os.remove(hint)
+                else:
+                    open(hint, "wb").write(b"not a pointer " + case["rnd"])
+                got = rows_multiset(t.scan())
+            except Exception as e:  # noqa
+                vio("second-loss-raises", f"{type(e).__name__}: {str(e)[:120]}")
+                return out
+            want2 = want_rows + rows_multiset([{"k": -6, "s": "other"}])
+            if got != want2:
+                vio("stale-after-second-loss", f"after another handle's commit and a second pointer loss the long-lived handle reads {sum(got.values())} rows, expected {sum(want2.values())}")
+                return out
+            try:
+                t.append_records([{"k": -7, "s": "mine"}])
+                got = rows_multiset(datashard.load_table(root).scan())
+            except Exception as e:  # noqa
+                vio("second-loss-append-raises", f"{type(e).__name__}: {str(e)[:120]}")
+                return out
+            if got != want2 + rows_multiset([{"k": -7, "s": "mine"}]):
+                vio("acknowledged-commit-lost-after-second-pointer-loss", f"after the long-lived handle's append the table has {sum(got.values())} rows, expected {sum(want2.values()) + 1}")
                 return out
         if act == "gc":
             age_tree(root, 90000, only=lambda rel: rel.startswith("data") or rel.startswith("metadata/manifests"))
